@@ -1,8 +1,10 @@
 package main
 
 import (
+	"fmt"
 	"go/token"
 	"go/types"
+	"strings"
 
 	"golang.org/x/tools/go/ssa"
 )
@@ -396,6 +398,7 @@ func checkC02(c *Ctx, r *Report) {
 	// (5) "under the caller's password (and BMC key)": the options reach the constructor as the
 	// caller passed them
 	checkOptionsUnaltered(c, r)
+	checkHandshakeRepliesReadOnly(c, r)
 }
 
 // classifyTranscript0 is classifyTranscript guarded for functions that are not transcript-shaped.
@@ -443,4 +446,59 @@ func (c *Ctx) reachesSend(fn *ssa.Function) bool {
 		return found
 	}
 	return walk(fn)
+}
+
+// checkHandshakeRepliesReadOnly: what the AuthCode and the integrity check value are computed
+// over are the fields of the replies as decoded. Outside the decoders' package nothing stores
+// into a field of a decoded RAKP Message 2/4 or Open Session Response: a field overwritten
+// before the comparison (with a "canonical" GUID remembered from an earlier command, say) makes
+// the comparison say nothing about what was on the wire.
+func checkHandshakeRepliesReadOnly(c *Ctx, r *Report) {
+	r.Rule("handshake-replies-read-only", "no function outside pkg/ipmi stores into a field of a decoded RAKP Message 2, RAKP Message 4 or Open Session Response", 1)
+	replies := map[string]bool{"RAKPMessage2": true, "RAKPMessage4": true, "OpenSessionRsp": true}
+	isReplyPtr := func(t types.Type) string {
+		pt, ok := t.Underlying().(*types.Pointer)
+		if !ok {
+			return ""
+		}
+		n, ok := pt.Elem().(*types.Named)
+		if !ok || n.Obj().Pkg() == nil || !strings.HasSuffix(n.Obj().Pkg().Path(), "pkg/ipmi") || !replies[n.Obj().Name()] {
+			return ""
+		}
+		return n.Obj().Name()
+	}
+	nFn, nBad := 0, 0
+	for _, fn := range c.LibFuncs() {
+		if fn.Pkg == nil || strings.HasSuffix(fn.Pkg.Pkg.Path(), "pkg/ipmi") {
+			continue
+		}
+		nFn++
+		fn := fn
+		rawInstrs(fn, true, func(in ssa.Instruction) {
+			st, ok := in.(*ssa.Store)
+			if !ok {
+				return
+			}
+			v := st.Addr
+			for depth := 0; depth < 6; depth++ {
+				switch x := v.(type) {
+				case *ssa.FieldAddr:
+					if name := isReplyPtr(x.X.Type()); name != "" {
+						nBad++
+						r.Bad(c.FnName(fn)+"|store into "+name, st.Pos(), "a field of a decoded "+name+" is overwritten outside its decoder: the authentication code is then compared over something else than the reply that arrived")
+						return
+					}
+					v = x.X
+					continue
+				case *ssa.IndexAddr:
+					v = x.X
+					continue
+				}
+				return
+			}
+		})
+	}
+	if nBad == 0 {
+		r.OK("handshake replies|read-only", token.NoPos, fmt.Sprintf("%d functions outside pkg/ipmi, none stores into a decoded handshake reply", nFn))
+	}
 }
